@@ -83,6 +83,9 @@ type c09Scenario struct {
 	Targets []c09Target `json:"targets"`
 	Bursts  []c09Burst  `json:"bursts"`
 	Horizon int         `json:"horizon_intervals"`
+	// FailedRedeploys: intervals in which a redeploy of the service to a target that never becomes
+	// healthy is issued and fails (it must change nothing: probing and rotation go on as before)
+	FailedRedeploys []int `json:"failed_redeploys,omitempty"`
 }
 
 func c09Gen(rng *rand.Rand, idx int) c09Scenario {
@@ -96,6 +99,7 @@ func c09Gen(rng *rand.Rand, idx int) c09Scenario {
 		for k := 1; k < sc.Horizon; k++ {
 			sc.Bursts = append(sc.Bursts, c09Burst{K: k, N: 2 + rng.IntN(3), Conc: k%3 == 0})
 		}
+		sc.FailedRedeploys = []int{2 + rng.IntN(20)}
 		return sc
 	}
 	sc := c09Scenario{Idx: idx, Horizon: 14 + rng.IntN(30)}
@@ -133,6 +137,11 @@ func c09Gen(rng *rand.Rand, idx int) c09Scenario {
 				}
 			}
 			sc.Bursts = append(sc.Bursts, b)
+		}
+	}
+	if rng.IntN(3) == 0 {
+		for i := 0; i < 1+rng.IntN(3); i++ {
+			sc.FailedRedeploys = append(sc.FailedRedeploys, 1+rng.IntN(sc.Horizon/2))
 		}
 	}
 	return sc
@@ -209,6 +218,18 @@ func c09Run(t *testing.T, run *Run, sc c09Scenario) {
 			})
 		}
 	}
+	failing := map[string]bool{}
+	for i, k := range sc.FailedRedeploys {
+		bad := fmt.Sprintf("bad%d-%d:80", sc.Idx%5, i)
+		w.AddTarget(bad, func(n int, at time.Duration) ProbeAct { return ProbeAct{Status: 500} })
+		name := fmt.Sprintf("failed-redeploy-%d", i)
+		failing[name] = true
+		w.At(t0+time.Duration(k)*c09Interval+100*time.Millisecond+OffArrival, func() {
+			w.Cmd(name, bad, func() error {
+				return w.Router.DeployService(svc, []string{bad}, DefSO, to, 200*time.Millisecond, time.Second)
+			})
+		})
+	}
 	if sc.Storm {
 		// noise: requests fired at the very instants the probes complete (never judged: they are
 		// ties by definition) keep the load balancer's lock busy while the state changes are applied
@@ -228,6 +249,14 @@ func c09Run(t *testing.T, run *Run, sc c09Scenario) {
 		run.Violate(sig, fmt.Sprintf(format, a...), sc, func() []string { return w.Trace(400) })
 	}
 	for _, c := range w.Cmds {
+		if failing[c.Name] {
+			if c.Err == "" {
+				fail("expected-failure-succeeded", "redeploy to a target that never passes a probe succeeded")
+				return
+			}
+			run.Count("failed_redeploys", 1)
+			continue
+		}
 		if c.Err != "" || c.Panic != "" {
 			fail("command-failed", "%s failed: %s %s", c.Name, c.Err, c.Panic)
 			return
